@@ -42,6 +42,10 @@ CHECKS = {
    text="match_spec (Coq) specifies the streaming Match: one callback per outermost location some target selects (Locate denotation of C11), in document order, with the value at that location. Proved: every reported location is selected, none lies below another selected location, and each (path, value) is a location of the document. oj.Match, oj.MatchString, oj.MatchLoad (one piece, 1-byte reads, a random split) and sen.Match are compared, callback sequence by callback sequence, with the extracted match_spec on seeded documents x 1-2 seeded targets (child, index, wildcard, union, descent, trailing filter). Three genuine limitations of the streaming handler are recorded known findings (slice/negative-index targets; a filter target shadowing another target; a descent in front of a trailing filter), each attributed per case.",
    technique="Coq specification of outermost-match with proved laws + callback-sequence correspondence under all chunkings",
    design='6/C17'),
+ 'C18': dict(
+   text="Proved in Coq for all typed simple trees (ten Go integer kinds, uint64 wrap made explicit) and both OmitNil settings: Simplify after Generify equals Decompose; on JSON-like data with nulls kept Decompose/Dup/Alter is the identity, hence the Generify/Simplify trip is the identity; Generify after Simplify gives the generic tree back; the writers see the same tree in a generic value and in its Simplify; Generify never leaves the int64 range. Deep copy is proved on a model of containers with identity (Alt/Store.v): a copy allocates a fresh identity for every container, denotes the same value, and an in-place mutation of any container of either tree leaves the other unchanged. Tied to the code on every run: alt.Generify/GenAlter/Decompose/Dup/Alter, Node.Simplify/Alter against the extracted functions on typed trees x OmitNil; writer text of gen tree vs Simplify for oj/sen/pretty; gen.Parser vs Generify(oj.Parser); the storage identities of every container of original and copy are observed (reflect pointers) and three in-place mutations are applied to every container of the copy and of the original for five copying operations.",
+   technique="Coq proofs of the conversion laws and of copy independence on a store model + correspondence of the kind switches and observed container identities / mutate-after-copy experiments",
+   design='6/C18'),
  'C19': dict(
    text="diff, jeq and jmatch (Alt/Diff.v) specify alt.Diff, Compare and Match on JSON-like trees (numbers by value across int/float, null equal to an absent member, ignore paths with wildcards applied per key and per index, a shorter second array reported once). Proved for all pairs of trees: Diff without ignore paths is empty exactly when the trees are equal in that sense, and Compare is nil exactly when Diff is empty. alt.Diff (simple and gen data, compared as sets of paths), alt.Compare and alt.Match are compared with the extracted functions on directed pairs (ignore paths at different indexes, wildcards) and seeded trees with 0-3 perturbations and 0-2 ignore paths.",
    technique="Coq proof that the Diff specification is empty iff trees are equal + correspondence of Diff/Compare/Match against the extracted specification",
